@@ -16,8 +16,71 @@ pub enum Which {
     C02,
 }
 
+/// Cases of a different scale (one of each per 160 cases): a contig of several Mbases cut into
+/// more than 65 536 segments / groups, and an archive with more than 256 samples.
+fn scale_case(i: u64, rng: &mut Rng) -> Option<(Params, SampleSet)> {
+    let kind = match i % 160 {
+        37 => 0,
+        117 => 1,
+        _ => return None,
+    };
+    let mut p = gen::params(rng, true);
+    p.fallback = 0.0;
+    p.capacity = 2 << 30;
+    p.pack = 50;
+    p.threads = *rng.pick(&[4usize, 8, 16]);
+    let mut samples = Vec::new();
+    if kind == 0 {
+        p.k = *rng.pick(&[13usize, 15, 17]);
+        p.segment_size = 50;
+        p.min_match = rng.usize(15, 20);
+        p.single_file = rng.chance(1, 3);
+        let len = rng.usize(4_300_000, 4_700_000);
+        let base = gen::random_bases(rng, len);
+        for si in 0..rng.usize(2, 3) {
+            let mut d = base.clone();
+            if si > 0 {
+                for _ in 0..len / 300 {
+                    let at = rng.usize(0, len - 1);
+                    d[at] = if rng.chance(1, 50) { rng.usize(4, 15) as u8 } else { rng.below(4) as u8 };
+                }
+                if si == 2 {
+                    d = gen::revcomp(&d);
+                }
+            }
+            let sn = format!("M{}#0", [9, 10, 2][si]);
+            samples.push(gen::Sample { name: sn.clone(), contigs: vec![(format!("{}#chr1 len={}", sn, len), d)] });
+        }
+    } else {
+        p.k = rng.usize(9, 13);
+        p.segment_size = 50;
+        p.single_file = false;
+        let base: Vec<Vec<u8>> = (0..2).map(|_| { let l = rng.usize(120, 420); gen::random_bases(rng, l) }).collect();
+        for si in 0..rng.usize(258, 300) {
+            let sn = format!("W{}#{}", si * 7 % 1000, si % 2);
+            let contigs = base
+                .iter()
+                .enumerate()
+                .filter(|(ci, _)| *ci == 0 || si % 3 != 1)
+                .map(|(ci, b)| (format!("{}#c{}", sn, ci), if si == 0 { b.clone() } else { gen::derive_contig(rng, b, 20, true) }))
+                .collect();
+            samples.push(gen::Sample { name: sn, contigs });
+        }
+    }
+    Some((p, SampleSet { samples, pansn: true }))
+}
+
 pub fn case_inputs(seed: u64, i: u64, thorough: bool) -> (Params, SampleSet, Rng) {
+    case_inputs_scaled(seed, i, thorough, false)
+}
+
+pub fn case_inputs_scaled(seed: u64, i: u64, thorough: bool, scale: bool) -> (Params, SampleSet, Rng) {
     let mut rng = Rng::derive(seed, 0xC01, i);
+    if scale {
+        if let Some((p, set)) = scale_case(i, &mut rng) {
+            return (p, set, rng);
+        }
+    }
     let big = thorough && rng.chance(1, 10);
     let mut p = gen::params(&mut rng, !big);
     let shape = Shape {
@@ -75,6 +138,8 @@ fn agcdec_compare(path: &str, set: &SampleSet, ragc_out: Option<&Vec<(String, Ve
     rep.count("dec_lz_matches", s.lz_matches);
     rep.count("dec_lz_matches_to_end", s.lz_matches_to_end);
     rep.count("dec_archives_with_several_metadata_batches", (s.metadata_batches > 1) as u64);
+    rep.count("dec_archives_with_more_than_65536_groups", (s.lz_groups > 65536) as u64);
+    rep.max("dec_max_groups_in_an_archive", s.lz_groups);
     if rep.samples.len() < 1 && d.directory.len() < 40 {
         let dir: Vec<String> = d.directory.iter().map(|(n, p)| format!("{}:{}", n, p)).collect();
         rep.sample(jobj(&[("decoded_directory_stream_parts", jstr(&dir.join(" ")))]));
@@ -117,7 +182,7 @@ pub fn run(args: &Args, rep: &mut Report, which: Which) {
                 continue;
             }
         }
-        let (p, set, mut rng) = case_inputs(args.seed, i, thorough);
+        let (p, set, mut rng) = case_inputs_scaled(args.seed, i, thorough, true);
         mon::set_case(i, jobj(&[("case", i.to_string()), ("params", p.json()), ("input", set.brief())]));
         rep.evaluations += 1;
         let via_cli = ragc.is_some() && i % 8 == 3;
@@ -260,6 +325,13 @@ pub fn run(args: &Args, rep: &mut Report, which: Which) {
             rep.count("archives_with_k32", 1);
         }
         rep.max("max_samples_in_an_archive", set.samples.len() as u64);
+        if set.samples.len() > 256 {
+            rep.count("archives_with_more_than_256_samples", 1);
+        }
+        if set.samples.iter().any(|s| s.contigs.iter().any(|c| c.1.len() > 4_000_000)) {
+            rep.count("archives_with_a_contig_of_more_than_4_Mbases", 1);
+        }
+        rep.max("max_contig_length", set.samples.iter().flat_map(|s| s.contigs.iter().map(|c| c.1.len())).max().unwrap_or(0) as u64);
         rep.max("max_bases_in_an_archive", set.total_bases() as u64);
         if set.samples.len() >= 2 && (hard > 0 || via_cli) {
             rep.nontrivial(set.digest() ^ fnv(p.describe().as_bytes()));
